@@ -527,3 +527,379 @@ Theorem reloc_j5 : TreeFacts w1 /\ Inv04 w1 /\ Inv05 T w1.
 Proof. exact (conj reloc_treefacts (conj reloc_inv04 reloc_inv05)). Qed.
 
 End Reloc.
+
+(* ====================================================================== the moved element is NOT identifiable (a container)
+   No renaming; the entries of the identifiable elements it holds change their prefix from src (the path of the old
+   parent) to dpre (the path of the new parent).  The index after the per-path re-keying is described in terms of the
+   moved subtree D. *)
+Section RelocC.
+Variable T : tables.
+Variable check_fn : N -> list N -> res bool.
+Hypothesis TK : TablesOK T check_fn.
+Notation Inv04 := (Inv04 T check_fn).
+Notation SHORTN := (name_short_name T).
+
+Variables (w w1 : world) (mv sp self : id) (mn pn n : node) (kpos pos : nat)
+          (m : N) (xm : model) (src dpre : list N) (IDS : list (list N * id)) (ids : list id).
+Hypothesis HF : TreeFacts w.
+Hypothesis HI : Inv04 w.
+Hypothesis HI5 : Inv05 T w.
+Hypothesis Hmn : w_nodes w mv = Some mn.
+Hypothesis Hpar : n_parent mn = PElem sp.
+Hypothesis Hpn : w_nodes w sp = Some pn.
+Hypothesis Hidx : index_of (citem_is mv) (n_content pn) = Some kpos.
+Hypothesis Hn : w_nodes w self = Some n.
+Hypothesis Hself_mv : self <> mv.
+Hypothesis Hself_out : ~ reach T w mv self.
+Hypothesis Hself_sp : self <> sp.
+Hypothesis Hnid : identifiable T w mv = false.
+Hypothesis Hpos : (pos <= List.length (n_content n))%nat.
+Hypothesis Hids_D : forall j, In j ids <-> reach T w mv j.
+Let pn1 := set_content pn (remove_at (n_content pn) kpos).
+Let mn1 := set_parent mn (PElem self).
+Let n1 := set_content n (insert_at (n_content n) pos (CElem mv)).
+Hypothesis Hnodes : forall j, w_nodes w1 j =
+  if j =? mv then Some mn1 else if j =? sp then Some pn1 else if j =? self then Some n1 else w_nodes w j.
+Hypothesis Hnext : w_next w1 = w_next w.
+Hypothesis Hsrc : SpecPath T w m mv src.
+Hypothesis Hdpre : SpecPath T w m self dpre.
+Hypothesis Hx : model_at w m = Some xm.
+Hypothesis Hmodels : w_models w1 = list_set (w_models w) (N.to_nat m) (set_idents xm IDS).
+Hypothesis Hids_nd : NoDupKeys IDS.
+Hypothesis Hids : forall k2 e, assoc_get k2 IDS = Some e <->
+     (reach T w mv e /\ exists q, assoc_get (src ++ q) (m_idents xm) = Some e /\ k2 = dpre ++ q)
+     \/ (~ reach T w mv e /\ assoc_get k2 (m_idents xm) = Some e).
+Hypothesis Hfront_src : named T (n_type pn) = true -> kpos = O ->
+  forall c2 rest c2n, n_content pn = CElem mv :: CElem c2 :: rest -> w_nodes w c2 = Some c2n -> n_name c2n <> SHORTN.
+Hypothesis Hfront_dst : pos = O -> identifiable T w self = false.
+Hypothesis Hmv_not_short : n_name mn <> SHORTN.
+Hypothesis Hself_mode : content_mode T (n_type n) <> Val MCharacters.
+
+Notation D := (reach T w mv).
+
+Lemma rc_child_sp : child_of w sp mv.
+Proof. exists pn. split; [exact Hpn|eapply index_of_citem; eauto]. Qed.
+Lemma rc_sp_notD : ~ D sp.
+Proof. intros (q & Hd). eapply (not_below_self T w sp mv q); eauto. apply rc_child_sp. Qed.
+Lemma rc_mv_sp : mv <> sp.
+Proof. intros E. apply rc_sp_notD. rewrite <- E. apply reach_refl. Qed.
+
+Lemma rc_w1_mv : w_nodes w1 mv = Some mn1.
+Proof. rewrite Hnodes, N.eqb_refl. reflexivity. Qed.
+Lemma rc_w1_sp : w_nodes w1 sp = Some pn1.
+Proof. rewrite Hnodes. pose proof rc_mv_sp as H2. apply not_eq_sym, N.eqb_neq in H2. rewrite H2, N.eqb_refl. reflexivity. Qed.
+Lemma rc_w1_self : w_nodes w1 self = Some n1.
+Proof. rewrite Hnodes. apply N.eqb_neq in Hself_mv as H2. apply N.eqb_neq in Hself_sp as H3. rewrite H2, H3, N.eqb_refl. reflexivity. Qed.
+Lemma rc_w1_other j : j <> mv -> j <> sp -> j <> self -> w_nodes w1 j = w_nodes w j.
+Proof. intros H2 H3 H4. rewrite Hnodes. apply N.eqb_neq in H2, H3, H4. rewrite H2, H3, H4. reflexivity. Qed.
+
+Lemma rc_D_same y : D y -> y <> mv -> w_nodes w1 y = w_nodes w y.
+Proof. intros Hd H2. apply rc_w1_other; auto; intros ->; [apply rc_sp_notD; exact Hd|contradiction]. Qed.
+Lemma rc_D_alloc j : D j -> exists nj, w_nodes w j = Some nj.
+Proof.
+  intros (q & Hd). destruct (dpath_alloc T _ _ _ _ Hd) as [->|(p & Hc)]; [eauto|].
+  destruct (tf_up _ HF _ _ Hc) as (cn & Hcn & _). eauto.
+Qed.
+Lemma rc_D_node j nj : D j -> w_nodes w j = Some nj ->
+  exists nj', w_nodes w1 j = Some nj' /\ n_type nj' = n_type nj /\ n_name nj' = n_name nj /\ n_content nj' = n_content nj /\
+              (j <> mv -> nj' = nj).
+Proof.
+  intros Hd Hj. destruct (N.eq_dec j mv) as [->|H2].
+  - rewrite Hmn in Hj. injection Hj as <-. exists mn1. split; [apply rc_w1_mv|]. unfold mn1. cbn. repeat split; auto. congruence.
+  - exists nj. rewrite (rc_D_same j Hd H2). auto.
+Qed.
+Lemma rc_D_child p c : D p -> (child_of w1 p c <-> child_of w p c).
+Proof.
+  intros Hp. destruct (rc_D_alloc p Hp) as (np & Hnp). destruct (rc_D_node p np Hp Hnp) as (np' & Hnp' & _ & _ & He & _).
+  unfold child_of. rewrite Hnp, Hnp'. split; intros (x & [= <-] & Hin); eexists; (split; [reflexivity|]); congruence.
+Qed.
+Lemma rc_mv_unique_parent p : child_of w p mv -> p = sp.
+Proof. intros Hc. destruct (tf_up _ HF _ _ Hc) as (a & Ha & Hap). rewrite Hmn in Ha. injection Ha as <-. congruence. Qed.
+
+Lemma rc_short_child_D j nj nj' : D j -> w_nodes w j = Some nj -> w_nodes w1 j = Some nj' -> short_child T w1 nj' = short_child T w nj.
+Proof.
+  intros Hd Hj Hj'. destruct (rc_D_node j nj Hd Hj) as (nj2 & Hj2 & _ & _ & Hc & _). rewrite Hj' in Hj2. injection Hj2 as <-.
+  rewrite !short_child_hd, Hc. destruct (hd_error (n_content nj)) as [[y|d]|] eqn:Eh; try reflexivity.
+  assert (Hy : child_of w j y).
+  { exists nj. split; [exact Hj|]. destruct (n_content nj); cbn in Eh; [discriminate|]. injection Eh as ->. left. reflexivity. }
+  rewrite rc_D_same; [reflexivity|eapply reach_step; eauto|].
+  intros ->. apply rc_sp_notD. rewrite <- (rc_mv_unique_parent j Hy). exact Hd.
+Qed.
+Lemma rc_seg_D j : D j -> seg T w1 j = seg T w j /\ identifiable T w1 j = identifiable T w j.
+Proof.
+  intros Hd. unfold seg, identifiable. destruct (rc_D_alloc j Hd) as (nj & Hj). destruct (rc_D_node j nj Hd Hj) as (nj' & Hj' & Hty & _).
+  rewrite Hj, Hj'. destruct (readings_ext T w w1 nj nj' Hty (rc_short_child_D j nj nj' Hd Hj Hj')) as (_ & H2 & H3). auto.
+Qed.
+Lemma rc_seg_mv : seg T w mv = [] /\ seg T w1 mv = [].
+Proof.
+  assert (H0 : seg T w mv = []).
+  { unfold seg. rewrite Hmn. unfold seg_n. destruct (item_name_n T w mn) as [a|] eqn:Ea; [|reflexivity].
+    apply item_name_identifiable in Ea. unfold identifiable in Hnid. rewrite Hmn in Hnid. congruence. }
+  destruct (rc_seg_D mv (reach_refl T w mv)) as (E & _). rewrite E. auto.
+Qed.
+
+Lemma rc_dpath_D j q : dpath T w1 mv j q <-> dpath T w mv j q.
+Proof.
+  split.
+  - intros Hd. assert (H : dpath T w mv j q /\ D j); [|tauto].
+    induction Hd as [|p c q Hp IH Hc]; [split; [constructor|apply reach_refl]|].
+    destruct IH as (IH1 & IH2). apply (rc_D_child p c IH2) in Hc.
+    assert (Hcd : D c) by (eapply reach_step; eauto).
+    destruct (rc_seg_D c Hcd) as (-> & _). split; [econstructor; eauto|exact Hcd].
+  - intros Hd. assert (H : dpath T w1 mv j q /\ D j); [|tauto].
+    induction Hd as [|p c q Hp IH Hc]; [split; [constructor|apply reach_refl]|].
+    destruct IH as (IH1 & IH2).
+    assert (Hcd : D c) by (eapply reach_step; eauto).
+    destruct (rc_seg_D c Hcd) as (<- & _). split; [econstructor; [exact IH1|apply (rc_D_child p c IH2); exact Hc]|exact Hcd].
+Qed.
+Lemma rc_reach_D j : reach T w1 mv j <-> D j.
+Proof. split; intros (q & Hd); exists q; apply rc_dpath_D; exact Hd. Qed.
+
+(* ---------- the virtual world without the subtree *)
+Definition wrc : world :=
+  mkWorld (fun j => if mem_id j ids then None else if j =? sp then Some pn1 else w_nodes w j) (w_next w) (w_files w) (w_models w).
+
+Lemma wrc_in j : D j -> w_nodes wrc j = None.
+Proof. intros Hd. cbn. apply Hids_D, mem_id_in in Hd. rewrite Hd. reflexivity. Qed.
+Lemma wrc_notin j : ~ D j -> w_nodes wrc j = if j =? sp then Some pn1 else w_nodes w j.
+Proof. intros Hd. cbn. destruct (mem_id j ids) eqn:E; [|reflexivity]. apply mem_id_in, Hids_D in E. contradiction. Qed.
+Lemma wrc_sp : w_nodes wrc sp = Some (set_content pn (remove_at (n_content pn) kpos)).
+Proof. rewrite (wrc_notin sp rc_sp_notD), N.eqb_refl. reflexivity. Qed.
+Lemma wrc_out j : j <> sp -> ~ D j -> w_nodes wrc j = w_nodes w j.
+Proof. intros H1 H2. rewrite (wrc_notin j H2). apply N.eqb_neq in H1. rewrite H1. reflexivity. Qed.
+Lemma wrc_gone j nj : D j -> w_nodes w j = Some nj -> w_nodes wrc j = Some (wipe nj) \/ w_nodes wrc j = None.
+Proof. intros Hd _. right. apply wrc_in. exact Hd. Qed.
+Lemma wrc_models : w_models wrc = list_set (w_models w) (N.to_nat m) (apply_plan xm [] []).
+Proof. cbn. rewrite apply_plan_nil. symmetry. apply list_set_same. exact Hx. Qed.
+Lemma wrc_short : named T (n_type pn) = true -> forall a, w_nodes w mv = Some a -> n_name a <> SHORTN.
+Proof. intros _ a Ha. rewrite Hmn in Ha. injection Ha as <-. exact Hmv_not_short. Qed.
+Lemma wrc_next : w_next wrc = w_next w.
+Proof. reflexivity. Qed.
+
+Lemma wrc_tf : TreeFacts wrc.
+Proof.
+  eapply removed_treefacts with (w := w) (h := sp) (sub := mv) (n := pn) (pos := kpos) (m := m) (x := xm) (K := []) (R := []);
+    eauto using wrc_sp, wrc_out, wrc_gone, wrc_models, wrc_short, wrc_next.
+Qed.
+Lemma wrc_side : ShortTyped T check_fn wrc /\ SlashFree T wrc /\ AllNamed T wrc /\ CharsLeaf T wrc.
+Proof.
+  eapply removed_side with (w := w) (h := sp) (sub := mv) (n := pn) (pos := kpos); eauto using wrc_sp, wrc_out, wrc_gone, wrc_short.
+Qed.
+Lemma wrc_pathset m2 p j : PathSet T wrc m2 p j <-> PathSet T w m2 p j /\ ~ D j.
+Proof.
+  eapply rem_pathset with (h := sp) (n := pn) (pos := kpos) (m := m) (x := xm) (K := []) (R := []);
+    eauto using wrc_sp, wrc_out, wrc_gone, wrc_models, wrc_short.
+Qed.
+Lemma wrc_refset m2 p r : RefSet T wrc m2 p r <-> RefSet T w m2 p r /\ ~ D r.
+Proof.
+  eapply rem_refset with (h := sp) (n := pn) (pos := kpos) (m := m) (x := xm) (K := []) (R := []);
+    eauto using wrc_sp, wrc_out, wrc_gone, wrc_models, wrc_short.
+Qed.
+Lemma wrc_specpath m2 j p : ~ D j -> (SpecPath T wrc m2 j p <-> SpecPath T w m2 j p).
+Proof.
+  eapply rem_specpath with (h := sp) (n := pn) (pos := kpos) (m := m) (x := xm) (K := []) (R := []);
+    eauto using wrc_sp, wrc_out, wrc_gone, wrc_models, wrc_short.
+Qed.
+Lemma wrc_identifiable j : ~ D j -> identifiable T wrc j = identifiable T w j.
+Proof. eapply rem_identifiable with (h := sp) (n := pn) (pos := kpos); eauto using wrc_sp, wrc_out, wrc_gone, wrc_short. Qed.
+Lemma rc_D_model m2 j : D j -> MReach T w m2 j -> m2 = m.
+Proof.
+  eapply D_model with (h := sp) (n := pn) (pos := kpos); eauto.
+  destruct Hsrc as (y & Hy & (q & Hd & _)). exists y. split; [exact Hy|].
+  destruct (dpath_last T _ _ _ _ Hd) as [E|(p & Hc & Hr)].
+  - exfalso. destruct (tf_roots _ HF _ _ Hy) as (nr & Hnr & Hpr). rewrite <- E in Hnr. congruence.
+  - rewrite <- (rc_mv_unique_parent p Hc). exact Hr.
+Qed.
+
+Lemma wrc_old_iff j : old wrc j <-> (exists nj, w_nodes w j = Some nj) /\ ~ D j.
+Proof.
+  unfold old. split.
+  - intros (nj & Hj). destruct (below_dec T w mv HF j) as [Hd|Hd]; [rewrite (wrc_in j Hd) in Hj; discriminate|].
+    split; [|exact Hd]. destruct (N.eq_dec j sp) as [->|Hne]; [eauto|]. rewrite (wrc_out j Hne Hd) in Hj. eauto.
+  - intros ((nj & Hj) & Hd). destruct (N.eq_dec j sp) as [->|Hne]; [rewrite wrc_sp; eauto|]. rewrite (wrc_out j Hne Hd). eauto.
+Qed.
+Lemma wrc_new_alloc j nj' : ~ old wrc j -> w_nodes w1 j = Some nj' -> D j.
+Proof.
+  intros Hno Hj. destruct (below_dec T w mv HF j) as [Hd|Hd]; [exact Hd|]. exfalso. apply Hno. apply wrc_old_iff. split; [|exact Hd].
+  destruct (N.eq_dec j sp) as [->|H3]; [eauto|]. destruct (N.eq_dec j self) as [->|H4]; [eauto|].
+  rewrite rc_w1_other in Hj; eauto. intros ->. apply Hd. apply reach_refl.
+Qed.
+Lemma wrc_self : w_nodes wrc self = Some n.
+Proof. rewrite (wrc_out self Hself_sp Hself_out). exact Hn. Qed.
+Lemma AC_old j nj : w_nodes wrc j = Some nj -> j <> self -> w_nodes w1 j = Some nj.
+Proof.
+  intros Hj Hne. destruct (below_dec T w mv HF j) as [Hd|Hd]; [rewrite (wrc_in j Hd) in Hj; discriminate|].
+  destruct (N.eq_dec j sp) as [->|H3]; [rewrite wrc_sp in Hj; rewrite rc_w1_sp; exact Hj|].
+  rewrite (wrc_out j H3 Hd) in Hj. rewrite rc_w1_other; auto. intros ->. apply Hd. apply reach_refl.
+Qed.
+Lemma AC_newkids p y : child_of w1 p y -> w_nodes wrc p = None -> w_nodes wrc y = None.
+Proof.
+  intros Hc Hp. destruct (below_dec T w mv HF p) as [Hd|Hd].
+  - apply wrc_in. eapply reach_step; [exact Hd|]. apply (rc_D_child p y Hd). exact Hc.
+  - exfalso. destruct Hc as (np' & Hp' & _).
+    destruct (N.eq_dec p sp) as [->|H3]; [rewrite wrc_sp in Hp; discriminate|]. rewrite (wrc_out p H3 Hd) in Hp.
+    destruct (N.eq_dec p self) as [->|H4]; [congruence|].
+    rewrite rc_w1_other in Hp'; [congruence| |exact H3|exact H4]. intros ->. apply Hd. apply reach_refl.
+Qed.
+Lemma AC_nshort : n_name n <> SHORTN.
+Proof. intros E. destruct (i4_short _ _ _ HI _ _ Hn E) as (Hm & _). contradiction. Qed.
+Lemma AC_front : pos = O -> identifiable_n T wrc n = false /\
+  (named T (n_type n) = true -> forall cn, w_nodes w1 mv = Some cn -> n_name cn <> SHORTN).
+Proof.
+  intros Hp. split.
+  - pose proof (wrc_identifiable self Hself_out) as H. unfold identifiable in H. rewrite wrc_self, Hn in H. rewrite H.
+    pose proof (Hfront_dst Hp) as H0. unfold identifiable in H0. rewrite Hn in H0. exact H0.
+  - intros _ cn Hcn. rewrite rc_w1_mv in Hcn. injection Hcn as <-. exact Hmv_not_short.
+Qed.
+Lemma AC_roots m2 : option_map m_root (model_at w1 m2) = option_map m_root (model_at wrc m2).
+Proof.
+  unfold model_at at 2. cbn [wrc w_models]. fold (model_at w m2). destruct (N.eq_dec m2 m) as [->|Hne].
+  - rewrite (model_at_set_same _ _ _ _ Hmodels _ Hx), Hx. reflexivity.
+  - rewrite (model_at_set_other _ _ _ _ _ Hmodels Hne). reflexivity.
+Qed.
+
+Theorem relocc_treefacts : TreeFacts w1.
+Proof.
+  eapply attach_treefacts with (w := wrc) (self := self) (c := mv) (n := n) (k := pos).
+  - exact wrc_tf.
+  - exact wrc_self.
+  - exact AC_old.
+  - exact rc_w1_self.
+  - apply wrc_in. apply reach_refl.
+  - exact AC_newkids.
+  - exact Hpos.
+  - exact AC_nshort.
+  - exact AC_front.
+  - exact AC_roots.
+  - rewrite Hnext. cbn. lia.
+  - exists mn1. split; [exact rc_w1_mv|reflexivity].
+  - intros j nj' Hno Hj. pose proof (wrc_new_alloc j nj' Hno Hj) as Hd. destruct (rc_D_alloc j Hd) as (nj & Hnj).
+    destruct (rc_D_node j nj Hd Hnj) as (nj2 & Hj2 & _ & _ & He & _). rewrite Hj in Hj2. injection Hj2 as <-.
+    split; [rewrite He; eapply tf_nodup; eauto|]. split; [rewrite Hnext; eapply tf_alloc; eauto|]. split; [apply rc_reach_D; exact Hd|].
+    intros y Hy. assert (Hc : child_of w j y) by (apply (rc_D_child j y Hd); exists nj'; auto).
+    destruct (tf_up _ HF _ _ Hc) as (yn & Hyn & Hyp). assert (Hyd : D y) by (eapply reach_step; eauto).
+    exists yn. split; [|exact Hyp]. rewrite rc_D_same; [exact Hyn|exact Hyd|].
+    intros ->. apply rc_sp_notD. rewrite <- (rc_mv_unique_parent j Hc). exact Hd.
+Qed.
+
+(* the path of an element of the subtree *)
+Lemma rc_D_path j p : D j -> SpecPath T w m j p -> exists q, dpath T w mv j q /\ p = src ++ q.
+Proof.
+  intros (q & Hd) Hp. exists q. split; [exact Hd|].
+  destruct Hsrc as (y & Hy & (q0 & Hd0 & E)).
+  assert (Hp2 : SpecPath T w m j (src ++ q)).
+  { exists y. split; [exact Hy|]. exists (q0 ++ q). split; [eapply dpath_trans; eauto|]. rewrite E, app_assoc. reflexivity. }
+  destruct (specpath_fun T _ _ _ _ _ _ HF Hp Hp2) as (_ & ->). reflexivity.
+Qed.
+Lemma rc_D_specpath j q : dpath T w mv j q -> SpecPath T w m j (src ++ q).
+Proof.
+  intros Hd. destruct Hsrc as (y & Hy & (q0 & Hd0 & E)). exists y. split; [exact Hy|]. exists (q0 ++ q).
+  split; [eapply dpath_trans; eauto|]. rewrite E, app_assoc. reflexivity.
+Qed.
+Lemma rc_new_D i : ~ old wrc i -> (exists ni, w_nodes w i = Some ni) -> D i.
+Proof.
+  intros Hno Hal. destruct (below_dec T w mv HF i) as [Hd|Hd]; [exact Hd|]. exfalso. apply Hno. apply wrc_old_iff. auto.
+Qed.
+
+Theorem relocc_inv04 : Inv04 w1.
+Proof.
+  destruct wrc_side as (S1 & S2 & S3 & S4). pose proof HI as [I1 I2 I3 IL I4 I5].
+  eapply attach_inv04 with (w := wrc) (self := self) (c := mv) (n := n) (k := pos) (mm := m) (ps := dpre).
+  - exact wrc_tf.
+  - exact wrc_self.
+  - exact AC_old.
+  - exact rc_w1_self.
+  - apply wrc_in. apply reach_refl.
+  - exact AC_newkids.
+  - exact Hpos.
+  - exact AC_nshort.
+  - exact AC_front.
+  - exact AC_roots.
+  - apply wrc_specpath; assumption.
+  - exact S1.
+  - exact S2.
+  - exact S3.
+  - exact S4.
+  - exact Hself_mode.
+  - intros j nj' Hno Hj. pose proof (wrc_new_alloc j nj' Hno Hj) as Hd. destruct (rc_D_alloc j Hd) as (nj & Hnj).
+    destruct (rc_D_node j nj Hd Hnj) as (nj2 & Hj2 & Hty & Hname & Hcont & _). rewrite Hj in Hj2. injection Hj2 as <-.
+    split; [intros E; rewrite Hty; eapply I1; eauto; congruence|]. split; [|split].
+    + intros t E Hcd. eapply (I2 j nj); eauto; [congruence|]. rewrite <- Hcd. symmetry. apply cdata_of_ext; auto.
+    + intros Hid. destruct (readings_ext T w w1 nj nj' Hty (rc_short_child_D j nj nj' Hd Hnj Hj)) as (H1 & H2 & _).
+      rewrite H1. apply (I3 j nj Hnj). rewrite <- H2. exact Hid.
+    + intros Hm. rewrite Hcont. eapply IL; eauto. congruence.
+  - intros m2 x2' Hx2' p i Hio. rewrite wrc_pathset. apply wrc_old_iff in Hio as (_ & Hnd).
+    destruct (N.eq_dec m2 m) as [->|Hne].
+    + rewrite (model_at_set_same _ _ _ _ Hmodels _ Hx) in Hx2'. injection Hx2' as <-. cbn [set_idents m_idents]. rewrite Hids. split.
+      * intros [(Hd & _)|(_ & Hk)]; [contradiction|]. split; [apply (I4 m xm Hx); exact Hk|exact Hnd].
+      * intros (HP & _). right. split; [exact Hnd|apply (I4 m xm Hx); exact HP].
+    + rewrite (model_at_set_other _ _ _ _ _ Hmodels Hne) in Hx2'. rewrite (I4 m2 x2' Hx2' p i). tauto.
+  - intros m2 x2' Hx2' p i Hno. destruct (N.eq_dec m2 m) as [->|Hne].
+    + rewrite (model_at_set_same _ _ _ _ Hmodels _ Hx) in Hx2'. injection Hx2' as <-. cbn [set_idents m_idents]. rewrite Hids.
+      destruct rc_seg_mv as (_ & Hsg). rewrite Hsg. cbn [app]. split.
+      * intros [(Hd & q & Hk & ->)|(Hnd & Hk)].
+        -- apply (I4 m xm Hx) in Hk as (P1 & P2 & P3). destruct (rc_D_path i _ Hd P3) as (q' & Hdq & E).
+           apply app_inv_head in E. subst q'. split; [reflexivity|]. exists q. split; [apply rc_dpath_D; exact Hdq|]. split; [|reflexivity].
+           destruct (rc_seg_D i Hd) as (_ & ->). exact P2.
+        -- exfalso. apply Hnd. apply rc_new_D; [exact Hno|]. apply (I4 m xm Hx) in Hk as (P1 & _). eapply mreach_alloc; eauto.
+      * intros (_ & q & Hdq & Hid & ->). apply rc_dpath_D in Hdq. assert (Hd : D i) by (exists q; exact Hdq). left. split; [exact Hd|].
+        exists q. split; [|reflexivity]. apply (I4 m xm Hx). pose proof (rc_D_specpath i q Hdq) as Hsp.
+        split; [eapply specpath_mreach; eauto|]. split; [|exact Hsp]. destruct (rc_seg_D i Hd) as (_ & <-). exact Hid.
+    + rewrite (model_at_set_other _ _ _ _ _ Hmodels Hne) in Hx2'. rewrite (I4 m2 x2' Hx2' p i). split.
+      * intros (P1 & _). exfalso. apply Hne. eapply rc_D_model; [|exact P1]. apply rc_new_D; [exact Hno|eapply mreach_alloc; eauto].
+      * intros (E & _). contradiction.
+  - intros m2 x2' Hx2'. destruct (N.eq_dec m2 m) as [->|Hne].
+    + rewrite (model_at_set_same _ _ _ _ Hmodels _ Hx) in Hx2'. injection Hx2' as <-. exact Hids_nd.
+    + rewrite (model_at_set_other _ _ _ _ _ Hmodels Hne) in Hx2'. apply (I5 m2 x2' Hx2').
+Qed.
+
+Lemma rc_ref_text_D r : D r -> ref_text T w1 r = ref_text T w r.
+Proof.
+  intros Hd. unfold ref_text. destruct (rc_D_alloc r Hd) as (nr & Hnr).
+  destruct (rc_D_node r nr Hd Hnr) as (nr' & Hnr' & Hty & _ & Hc & _). rewrite Hnr, Hnr', Hty.
+  rewrite (cdata_of_ext T nr nr' Hty Hc). reflexivity.
+Qed.
+Lemma rc_self_noref : isref T (n_type n) = false.
+Proof.
+  unfold isref. destruct (is_ref T (n_type n)) as [[|]| |] eqn:E; try reflexivity.
+  exfalso. apply Hself_mode. apply (tk_ref _ _ TK _ E).
+Qed.
+Lemma rc_origins m2 x2' : model_at w1 m2 = Some x2' -> exists x2, model_at w m2 = Some x2 /\ m_origins x2' = m_origins x2.
+Proof.
+  intros Hx2'. destruct (N.eq_dec m2 m) as [->|Hne].
+  - rewrite (model_at_set_same _ _ _ _ Hmodels _ Hx) in Hx2'. injection Hx2' as <-. exists xm. auto.
+  - rewrite (model_at_set_other _ _ _ _ _ Hmodels Hne) in Hx2'. eauto.
+Qed.
+
+Theorem relocc_inv05 : Inv05 T w1.
+Proof.
+  pose proof HI5 as [IE IT].
+  eapply attach_inv05 with (w := wrc) (self := self) (c := mv) (n := n) (k := pos) (mm := m) (ps := dpre).
+  - exact wrc_tf.
+  - exact wrc_self.
+  - exact AC_old.
+  - exact rc_w1_self.
+  - apply wrc_in. apply reach_refl.
+  - exact AC_newkids.
+  - exact Hpos.
+  - exact AC_nshort.
+  - exact AC_front.
+  - exact AC_roots.
+  - apply wrc_specpath; assumption.
+  - exact rc_self_noref.
+  - intros m2 x2' Hx2' p r Hro. destruct (rc_origins m2 x2' Hx2') as (x2 & Hx2 & Ho). unfold origins_of. rewrite Ho.
+    rewrite wrc_refset. apply wrc_old_iff in Hro as (_ & Hnd). destruct (IE m2 x2 Hx2 p) as (_ & H). unfold origins_of in H. rewrite H. tauto.
+  - intros m2 x2' Hx2' p r Hno. destruct (rc_origins m2 x2' Hx2') as (x2 & Hx2 & Ho). unfold origins_of. rewrite Ho.
+    destruct (IE m2 x2 Hx2 p) as (_ & H). unfold origins_of in H. rewrite H. unfold RefSet. split.
+    + intros (Hm & Ht). assert (Hd : D r) by (apply rc_new_D; [exact Hno|eapply mreach_alloc; eauto]).
+      split; [eapply rc_D_model; eauto|]. split; [apply rc_reach_D; exact Hd|]. rewrite (rc_ref_text_D r Hd). exact Ht.
+    + intros (-> & Hr & Ht). apply rc_reach_D in Hr. rewrite (rc_ref_text_D r Hr) in Ht. split; [|exact Ht].
+      destruct Hsrc as (y & Hy & (q0 & Hd0 & _)). exists y. split; [exact Hy|]. eapply reach_trans; [exists q0; exact Hd0|exact Hr].
+  - intros m2 x2' p Hx2'. destruct (rc_origins m2 x2' Hx2') as (x2 & Hx2 & Ho). unfold origins_of. rewrite Ho. apply (IE m2 x2 Hx2 p).
+  - intros m2 x2' Hx2'. destruct (rc_origins m2 x2' Hx2') as (x2 & Hx2 & Ho). rewrite Ho. apply (IT m2 x2 Hx2).
+Qed.
+
+Theorem relocc_j5 : TreeFacts w1 /\ Inv04 w1 /\ Inv05 T w1.
+Proof. exact (conj relocc_treefacts (conj relocc_inv04 relocc_inv05)). Qed.
+
+End RelocC.
